@@ -997,3 +997,23 @@ def panics_in(prog, f, blocks):
         if c.bb in blocks and is_panic_fn(c.callee):
             out.append(c)
     return out
+
+
+def natural_loops(f):
+    """[(header, body set)] for every back edge b -> h with h dominating b (normal edges only)"""
+    out = {}
+    preds = f.preds()
+    for b in range(len(f.blocks)):
+        if f.blocks[b]["cleanup"]:
+            continue
+        for h in f.succ(b):
+            if f.dominates(h, b):
+                body = out.setdefault(h, {h})
+                st = [b]
+                while st:
+                    x = st.pop()
+                    if x in body:
+                        continue
+                    body.add(x)
+                    st.extend(preds.get(x, ()))
+    return sorted(out.items())
